@@ -413,3 +413,101 @@ func (ck *Check) findingCanaries() {
 		ck.bounded = append(ck.bounded, d)
 	}
 }
+
+func init() {
+	propChecks["C19"] = checkC19
+}
+
+// checkC19: bounded stand-in (never counted as proved), see DESIGN §5 C19.
+func checkC19(ck *Check) int {
+	ck.assume = map[string]bool{}
+	src, err := os.ReadFile(filepath.Join(ck.Verif, "harness", "c19_all_test.go"))
+	if err != nil {
+		fmt.Fprintln(os.Stderr, "engine error:", err)
+		return 2
+	}
+	nodes := "7"
+	if ck.Tier == "thorough" {
+		nodes = "10"
+	}
+	os.Setenv("GOVC_C19_NODES", nodes)
+	out, _ := ck.runOverlayTest("cfgerrors", "zz_govc_c19_test.go", string(src), "^TestGovcC19$", 10*time.Minute)
+	var trees, cases, nontrivial, fails, maxn int
+	sample := ""
+	found := false
+	var failLines []string
+	for _, ln := range strings.Split(out, "\n") {
+		if strings.HasPrefix(ln, "GOVC-C19-FAIL") {
+			failLines = append(failLines, ln)
+		}
+		if strings.HasPrefix(ln, "GOVC-C19 ") {
+			fmt.Sscanf(ln, "GOVC-C19 maxnodes=%d trees=%d cases=%d nontrivial=%d fails=%d sample=%s", &maxn, &trees, &cases, &nontrivial, &fails, &sample)
+			found = true
+		}
+	}
+	replayDir := filepath.Join(ck.Verif, "replays", ck.Prop)
+	os.RemoveAll(replayDir)
+	violations := 0
+	if !found {
+		// the harness did not complete: compile error or panic escaping the test
+		violations++
+		p := ck.writeSimpleReplay(replayDir, "c19_harness", map[string]any{"obligation": "cfgerrors.All/bounded", "output": firstLines(out, 40)})
+		fmt.Printf("VIOLATION property=%s replay=%s\n", ck.Prop, p)
+	} else if fails > 0 {
+		violations++
+		p := ck.writeSimpleReplay(replayDir, "c19_all", map[string]any{"obligation": "cfgerrors.All/bounded", "failing_cases": failLines, "how_to_replay": "copy /verif/harness/c19_all_test.go into /repo/cfgerrors and run go test -run TestGovcC19 -v"})
+		fmt.Printf("VIOLATION property=%s replay=%s\n", ck.Prop, p)
+	}
+	cov := map[string]any{
+		"evaluations":         cases,
+		"distinct_nontrivial": nontrivial,
+		"rule":                fmt.Sprintf("every join tree built with errors.Join with at most %d nodes (all shapes, joins of one, nested joins; leaves drawn from all exported cfgerrors types and a foreign error) x every break position 0..#leaves; non-trivial = a tree with at least 2 leaves; oracle = independent recursive flattening, compared as multisets (yield order is unspecified), plus 'nothing yielded after break' and 'no panic'", maxn),
+		"samples":             []any{map[string]any{"tree": sample, "break_positions": "0..leaves"}},
+		"exhaustive":          true,
+		"trees":               trees,
+		"bound":               map[string]any{"function": "cfgerrors.All", "max_nodes": maxn},
+		"explanation":         "BOUNDED stand-in, not a proof: cfgerrors.All (closure returning closure, range-over-func, type switch on an open interface) is outside the subset of the VC generator; the second sentence of C19 (count equals number of violations) rests on C05's violation-count invariants.",
+	}
+	ev := Evidence{PropertyID: ck.Prop, Tier: ck.Tier, Seed: seedFromEnv(), Level: "exploration", Coverage: cov,
+		Assumptions: []string{"bounded: trees with more nodes than the bound are not explored", "errors.Join builds the tree as documented"},
+		WallS:       round2(time.Since(ck.T0).Seconds()), Violations: violations}
+	writeJSON(filepath.Join(ck.Verif, "evidence", ck.Prop+".json"), ev)
+	fmt.Printf("%s %s: bounded stand-in, %d trees, %d cases, %d failures, %.1fs\n", ck.Prop, ck.Tier, trees, cases, fails, time.Since(ck.T0).Seconds())
+	if violations > 0 {
+		return 1
+	}
+	return 0
+}
+
+func init() {
+	propChecks["C07"] = func(ck *Check) int {
+		ck.assume = map[string]bool{}
+		ck.checkC07()
+		ck.explanation = "Contract-based verification does not explore schedules. What is decided here, on the SSA control-flow graph of the real code, is the ownership discipline that makes the sequential proofs (C03, C08-C11, C16) valid under concurrency: every access to the guarded fields Middleware.icfg/debug happens under m.mu on every path (loads under at least RLock, stores under Lock); only the lifecycle methods and the handler closure access them; the handler closure and Config take ONE snapshot of each field in ONE critical section; Reconfigure/SetDebug update within one write-locked section; nothing reachable from a published *internalConfig is written outside its construction. The step from 'all conflicting accesses are ordered by m.mu' to 'every response is the sequential response of one (configuration, debug) state current during the request, and there is no data race' is the Go memory model's DRF-SC guarantee plus sync.RWMutex's contract: assumed, not proved. No interleaving is executed or enumerated."
+		ck.assume["Go memory model (DRF-SC) and sync.RWMutex mutual exclusion: assumed"] = true
+		ck.assume["no schedule is explored; C07 is claimed at level 'other' for the lock/ownership discipline only"] = true
+		return ck.finish("other")
+	}
+	propChecks["C12"] = func(ck *Check) int {
+		ck.assume = map[string]bool{}
+		ck.checkC12()
+		ck.checkC07immutOnly()
+		ck.explanation = "Ownership obligations decided on the SSA of the real code (flow facts, no SMT): no function except init stores to a package-level variable; on every handler-visible path (functions after which the wrapped handler runs) no package-level slice and no configuration-owned slice is placed in the response header map (only request-owned or freshly allocated values), so a handler that mutates reachable slices in place cannot affect later requests; every slice stored into an internalConfig is allocated by the validator (no aliasing with the caller's Config); every slice in a Config() result is fresh (literal, Elems, ToSlice = slices.Clone, strings.Split); nothing reachable from a published *internalConfig is written after construction, so the response is a function of (configuration, debug, request, pre-set headers) only. Strings are immutable in Go. Aliasing inside the standard library is trusted."
+		ck.assume["aliasing behaviour of stdlib callees (slices.Clone, strings.Split, http.Header.Add/Set allocate fresh values): trusted"] = true
+		return ck.finish("other")
+	}
+}
+
+func (ck *Check) checkC07immutOnly() {
+	saved := ck.flowObl
+	ck.flowObl = nil
+	ck.checkC07()
+	var keep []map[string]any
+	for _, d := range ck.flowObl {
+		if strings.HasPrefix(fmt.Sprint(d["name"]), "C07/immutable_after_publication") {
+			d["name"] = strings.Replace(fmt.Sprint(d["name"]), "C07/", "C12/", 1)
+			keep = append(keep, d)
+		}
+	}
+	ck.flowObl = append(saved, keep...)
+}
